@@ -211,6 +211,7 @@ impl<K: CacheKey + 'static> MemoryCache<K> {
         }
 
         let evict_count = current_entries - target_entries;
+        #[cfg(feature = "verif-hooks")] crate::verif_hooks::sched_point("memory.perform_eviction.decided");
 
         match &self.config.eviction_policy {
             crate::traits::EvictionPolicy::Lru => self.evict_lru(evict_count),
@@ -233,9 +234,11 @@ impl<K: CacheKey + 'static> MemoryCache<K> {
         candidates.sort_by_key(|(_, last_accessed)| *last_accessed);
 
         let to_evict = candidates.into_iter().take(count);
+        #[cfg(feature = "verif-hooks")] crate::verif_hooks::sched_point("memory.evict_lru.snapshot-taken");
 
         for (key, _) in to_evict {
             if let Some((_, entry)) = self.storage.remove(&key) {
+                #[cfg(feature = "verif-hooks")] crate::verif_hooks::sched_point("memory.evict_lru.removed");
                 self.entry_count.fetch_sub(1, Ordering::Relaxed);
                 self.memory_usage
                     .fetch_sub(entry.size_bytes as u64, Ordering::Relaxed);
@@ -256,9 +259,11 @@ impl<K: CacheKey + 'static> MemoryCache<K> {
         candidates.sort_by_key(|(_, access_count)| *access_count);
 
         let to_evict = candidates.into_iter().take(count);
+        #[cfg(feature = "verif-hooks")] crate::verif_hooks::sched_point("memory.evict_lfu.snapshot-taken");
 
         for (key, _) in to_evict {
             if let Some((_, entry)) = self.storage.remove(&key) {
+                #[cfg(feature = "verif-hooks")] crate::verif_hooks::sched_point("memory.evict_lfu.removed");
                 self.entry_count.fetch_sub(1, Ordering::Relaxed);
                 self.memory_usage
                     .fetch_sub(entry.size_bytes as u64, Ordering::Relaxed);
@@ -279,9 +284,11 @@ impl<K: CacheKey + 'static> MemoryCache<K> {
         candidates.sort_by_key(|(_, created_at)| *created_at);
 
         let to_evict = candidates.into_iter().take(count);
+        #[cfg(feature = "verif-hooks")] crate::verif_hooks::sched_point("memory.evict_fifo.snapshot-taken");
 
         for (key, _) in to_evict {
             if let Some((_, entry)) = self.storage.remove(&key) {
+                #[cfg(feature = "verif-hooks")] crate::verif_hooks::sched_point("memory.evict_fifo.removed");
                 self.entry_count.fetch_sub(1, Ordering::Relaxed);
                 self.memory_usage
                     .fetch_sub(entry.size_bytes as u64, Ordering::Relaxed);
@@ -302,9 +309,11 @@ impl<K: CacheKey + 'static> MemoryCache<K> {
         keys.shuffle(&mut rng());
 
         let to_evict = keys.into_iter().take(count);
+        #[cfg(feature = "verif-hooks")] crate::verif_hooks::sched_point("memory.evict_random.snapshot-taken");
 
         for key in to_evict {
             if let Some((_, entry)) = self.storage.remove(&key) {
+                #[cfg(feature = "verif-hooks")] crate::verif_hooks::sched_point("memory.evict_random.removed");
                 self.entry_count.fetch_sub(1, Ordering::Relaxed);
                 self.memory_usage
                     .fetch_sub(entry.size_bytes as u64, Ordering::Relaxed);
@@ -326,9 +335,11 @@ impl<K: CacheKey + 'static> MemoryCache<K> {
                 }
             })
             .collect();
+        #[cfg(feature = "verif-hooks")] crate::verif_hooks::sched_point("memory.evict_expired.snapshot-taken");
 
         for key in expired_keys {
             if let Some((_, entry)) = self.storage.remove(&key) {
+                #[cfg(feature = "verif-hooks")] crate::verif_hooks::sched_point("memory.evict_expired.removed");
                 self.entry_count.fetch_sub(1, Ordering::Relaxed);
                 self.memory_usage
                     .fetch_sub(entry.size_bytes as u64, Ordering::Relaxed);
@@ -375,11 +386,14 @@ impl<K: CacheKey + 'static> AsyncCache<K> for MemoryCache<K> {
             if entry.is_expired() {
                 // Drop the guard before removing
                 drop(entry); // Drop the guard before attempting to remove
+                #[cfg(feature = "verif-hooks")] crate::verif_hooks::sched_point("memory.get.expired-guard-dropped");
 
                 // Remove the entry only if it is still an expired one: a concurrent put may
                 // have replaced it since the guard was dropped. Account for what was removed.
                 if let Some((_, removed)) = self.storage.remove_if(key, |_, e| e.is_expired()) {
+                    #[cfg(feature = "verif-hooks")] crate::verif_hooks::sched_point("memory.get.expired-removed");
                     self.entry_count.fetch_sub(1, Ordering::Relaxed);
+                    #[cfg(feature = "verif-hooks")] crate::verif_hooks::sched_point("memory.get.expired-count-updated");
                     self.memory_usage
                         .fetch_sub(removed.size_bytes as u64, Ordering::Relaxed);
                 }
@@ -414,11 +428,13 @@ impl<K: CacheKey + 'static> AsyncCache<K> for MemoryCache<K> {
         if self.needs_eviction() {
             self.perform_eviction();
         }
+        #[cfg(feature = "verif-hooks")] crate::verif_hooks::sched_point("memory.put_with_ttl.before-insert");
 
         let entry = Arc::new(MemoryCacheEntryInner::new(value, size_bytes, Some(ttl)));
 
         // Insert or update entry
         if let Some(old_entry) = self.storage.insert(key, entry) {
+            #[cfg(feature = "verif-hooks")] crate::verif_hooks::sched_point("memory.put_with_ttl.replaced");
             // Updating existing entry - adjust memory usage
             let old_size = old_entry.size_bytes as u64;
             let new_size = size_bytes as u64;
@@ -432,7 +448,9 @@ impl<K: CacheKey + 'static> AsyncCache<K> for MemoryCache<K> {
             }
         } else {
             // New entry
+            #[cfg(feature = "verif-hooks")] crate::verif_hooks::sched_point("memory.put_with_ttl.inserted");
             self.entry_count.fetch_add(1, Ordering::Relaxed);
+            #[cfg(feature = "verif-hooks")] crate::verif_hooks::sched_point("memory.put_with_ttl.count-updated");
             self.memory_usage
                 .fetch_add(size_bytes as u64, Ordering::Relaxed);
         }
@@ -446,10 +464,13 @@ impl<K: CacheKey + 'static> AsyncCache<K> for MemoryCache<K> {
             if entry.is_expired() {
                 // Drop the guard before removing
                 drop(entry); // Drop the guard before attempting to remove
+                #[cfg(feature = "verif-hooks")] crate::verif_hooks::sched_point("memory.contains.expired-guard-dropped");
 
                 // Clean up the entry only if it is still an expired one (see get)
                 if let Some((_, removed)) = self.storage.remove_if(key, |_, e| e.is_expired()) {
+                    #[cfg(feature = "verif-hooks")] crate::verif_hooks::sched_point("memory.contains.expired-removed");
                     self.entry_count.fetch_sub(1, Ordering::Relaxed);
+                    #[cfg(feature = "verif-hooks")] crate::verif_hooks::sched_point("memory.contains.expired-count-updated");
                     self.memory_usage
                         .fetch_sub(removed.size_bytes as u64, Ordering::Relaxed);
                 }
@@ -464,7 +485,9 @@ impl<K: CacheKey + 'static> AsyncCache<K> for MemoryCache<K> {
 
     async fn remove(&self, key: &K) -> CacheResult<bool> {
         if let Some((_, entry)) = self.storage.remove(key) {
+            #[cfg(feature = "verif-hooks")] crate::verif_hooks::sched_point("memory.remove.removed");
             self.entry_count.fetch_sub(1, Ordering::Relaxed);
+            #[cfg(feature = "verif-hooks")] crate::verif_hooks::sched_point("memory.remove.count-updated");
             self.memory_usage
                 .fetch_sub(entry.size_bytes as u64, Ordering::Relaxed);
             Ok(true)
@@ -484,6 +507,7 @@ impl<K: CacheKey + 'static> AsyncCache<K> for MemoryCache<K> {
                 .fetch_sub(entry.size_bytes as u64, Ordering::Relaxed);
             false
         });
+        #[cfg(feature = "verif-hooks")] crate::verif_hooks::sched_point("memory.clear.map-cleared");
         self.metrics.reset();
         Ok(())
     }
